@@ -72,7 +72,7 @@ PROPS['C10'] = {
 PROPS['C09'] = {
     'level': 'proof',
     'vx': [{'unit': 'parse', 'functions': ["Message<'a> :: from_bytes", 'fingerprint']},
-           {'unit': 'builder', 'functions': ['add_fingerprint', 'add_fingerprint_unchecked', 'theorem_sealed_fingerprint', 'lemma_last_tlv', 'Fingerprint :: new']}],
+           {'unit': 'builder', 'functions': ['add_fingerprint', 'add_fingerprint_unchecked', 'theorem_sealed_fingerprint', 'theorem_fingerprinted_builder_parses', 'lemma_blist_push', 'lemma_last_tlv', 'Fingerprint :: new']}],
     'bx': ['c09'],
     'rule': 'Verus verification conditions of unit parse; fp_ok clause of wf_message.',
     'proved': ['accepted buffer with FINGERPRINT at o: value == crc32(bytes[..o] with length field o+8-20) ^ 0x5354554e (fp_ok inside wf_message), and o+8 == len',
@@ -127,14 +127,14 @@ PROPS['C13'] = {
 PROPS['C16'] = {
     'level': 'exploration',
     'vx': [{'unit': 'builder', 'functions': ['unknown_attributes', 'bad_request', 'builder_error', 'builder_success', ":: builder", ':: class', ':: method', ':: has_class', 'from_class_method', 'to_bits',
-                                             'lemma_type_roundtrip', 'lemma_method_idem', 'lemma_literals', 'ErrorCode :: new', 'UnknownAttributes :: new', 'add_attribute', "MessageBuilder<'a> :: into_owned", 'get_type', 'transaction_id']}],
+                                             'lemma_type_roundtrip', 'lemma_method_idem', 'lemma_literals', 'ErrorCode :: new', 'UnknownAttributes :: new', 'add_attribute', "MessageBuilder<'a> :: into_owned", 'get_type', 'transaction_id', 'theorem_unsealed_builder_parses', 'theorem_builder_wellformed', 'lemma_unsealed_ok', 'lemma_blayout_tail_ok', 'lemma_holds_push', 'lemma_holds_congruent']}],
     'kx': ['k16_comprehension_required'],
     'bx': ['c16'],
     'rule': 'Kani complete harness for the classification; Verus for the response constructors; BX enumeration for the verdict of check_attribute_types (iterator adaptors).',
     'proved': ['comprehension_required(t) <=> t < 0x8000 for all 65536 types (Kani, complete)',
                '(Verus, unit builder) response construction: for a request src, Message::bad_request(src) / unknown_attributes(src, types) return a builder with class error, the method and the transaction id of src (type field without the top bits), whose attributes are exactly SOFTWARE "stun-types", ERROR-CODE 400 "Bad Request" resp. 420 "Unknown Attributes" (value: 00 00 class number + text) and - unless the list is empty - UNKNOWN-ATTRIBUTES listing exactly the given types in the given order; builder_error / builder_success / builder; the panic! of builder_error/builder_success is unreachable for requests (documented precondition; D8 is the known finding where check_attribute_types violates it)',
                '(Verus) MessageType::{from_class_method, class, method, has_class} against the RFC 8489 s5 bit layout, with the round-trip lemma; Message::{class, method, has_class, get_type, transaction_id}'],
-    'bounded': ['the verdict of check_attribute_types (which of 420 / 400 / nothing, and which types are listed: iterator map/filter/any over the exposed attributes): BX against an RFC 8489 s6.3.1 oracle; that the response parses back: BX (and, at spec level, unit layout for any list of non-sealing attributes)',
+    'bounded': ['the verdict of check_attribute_types (which of 420 / 400 / nothing, and which types are listed: iterator map/filter/any over the exposed attributes): BX against an RFC 8489 s6.3.1 oracle; that the response parses back: proved up to build() (the constructors ensure a writable list without sealing attributes; theorem_unsealed_builder_parses: its bytes satisfy wf_message when the body fits the 16-bit length field), BX end to end',
                 'Software::new (str::len has no usable vstd specification): assumed in VX, BX'],
     'trusted': _KX_TRUST + ['mirror impls of AttributeWrite for Software / ErrorCode / UnknownAttributes in unit builder (value functions as proved in units writers / attrs)', 'smallvec::smallvec![] stand-in (empty list)'],
 }
@@ -248,7 +248,7 @@ _BX_TRUST = ['BX reference implementations (CRC-32, MD5, SHA-1, SHA-256, HMAC, T
 PROPS['C03'] = {
     'level': 'exploration',
     'vx': [{'unit': 'layout'}, {'unit': 'writers', 'functions': ['write_into', 'write_into_unchecked', 'to_bytes', 'write_header']},
-           {'unit': 'builder', 'functions': ['write_into', 'into_owned', 'to_owned', 'add_fingerprint_unchecked', 'add_message_integrity_unchecked', 'integrity_bytes_from_message', 'theorem_sealed_fingerprint', 'theorem_sealed_sha1', 'theorem_sealed_sha256', 'lemma_last_tlv', 'lemma_layout_push', 'lemma_layout_split', 'lemma_write_step', 'lemma_write_room', ':: from', ':: new']}],
+           {'unit': 'builder', 'functions': ['write_into', 'into_owned', 'to_owned', 'add_fingerprint_unchecked', 'add_message_integrity_unchecked', 'integrity_bytes_from_message', 'theorem_sealed_fingerprint', 'theorem_sealed_sha1', 'theorem_sealed_sha256', 'lemma_last_tlv', 'lemma_layout_push', 'lemma_layout_split', 'lemma_write_step', 'lemma_write_room', ':: from', ':: new', 'theorem_builder_wellformed', 'theorem_unsealed_builder_parses', 'theorem_fingerprinted_builder_parses', 'lemma_blayout_tail_ok', 'lemma_blist_push', 'lemma_unsealed_ok', 'lemma_flags_unsealed', 'lemma_layout_mod4']}],
     'kx': ['k03_build_small'],
     'bx': ['c03'],
     'technique': 'Verus: spec-level round-trip theorem over the verified parser/writer contracts; bounded stand-in (execution of the real MessageBuilder against an independent serialiser + reference decoder) for the builder itself',
@@ -257,6 +257,7 @@ PROPS['C03'] = {
                '(unit writers) every attribute writer used by the builder produces exactly tlv_bytes(type, value) (15 typed + raw in Verus, 4 in Kani; see C12)',
                '(unit builder) MessageBuilder::write_into, for attribute lists of ANY length: into an exact or larger destination it writes header20(type, body length, magic cookie, 96-bit transaction id) followed by the padded TLVs of the attributes in order and reports exactly that length (so length = 20 + a sum of multiples of four, header length field = length - 20), touching nothing beyond it; AttrOrRaw::write_into dispatches to the two writers; MessageType::write_into',
                '(unit builder) sealing: add_fingerprint_unchecked / add_message_integrity_unchecked append exactly one attribute whose value is the CRC / HMAC of build() with the adjusted length field (over the assumed contracts of build(), the crc/hmac crates and make_hmac_key), and the composition theorems show the sealed serialisation satisfies fp_ok / mi_correct / mi256_correct; AttrOrRaw::into_owned, RawAttribute::into_owned, Data::into_owned preserve type and value bytes',
+               '(unit builder) theorem_builder_wellformed / theorem_unsealed_builder_parses / theorem_fingerprinted_builder_parses: the bytes that write_into is proved to write for a builder whose list obeys the ordering rules (in particular: any list of non-sealing attributes, and such a list sealed by add_fingerprint) satisfy wf_message - the predicate for which Message::from_bytes is proved Ok <==> wf_message in unit parse - with length a multiple of four, header length field = length - 20, and the type and transaction id in the header',
                '(in C02/C10) the parser accepts exactly the well-formed buffers and exposes them faithfully - so "parses back identically" reduces to "the builder concatenates header and attribute TLVs as specified" (now proved for write_into) plus the sealing values'],
     'bounded': ['byte_len (iterator map/sum) == 20 + padded TLV sizes and build() == header + TLVs: assumed in VX; BX compares them with the independent serialiser, Kani k03_build_small (thorough tier) checks them on builders of two raw attributes with symbolic types / 0..=4 symbolic value bytes / all ids',
                 'build() (vec![0; byte_len] then write_into; iterator sum): assumed == header + TLVs in VX; MessageBuilder::clone: BX random builder programs',
